@@ -1,4 +1,273 @@
-import BB.Model.PersistStore
-/-! # C03 (theorems follow) -/
+import BB.Proofs.PersistCalm
+import BB.Proofs.PersistLayout
+/-!
+# C03 - Acknowledged uploads survive graceful shutdown and committed epochs
+
+Same model as C02 (`BB.Persist`): histories are sequences of `Step`s - lock regions of uploads and
+refreshes, block rotations, every lock region and I/O operation of both `PeriodicSyncer` goroutines,
+crashes - and `Reach c w` says that `w` is the world after some history from a freshly formatted
+medium.  `w.g1` is the program counter of `ProcessBlockPut`; `g1Completed true` is the lock region
+in which it learns of the shutdown after its first sync (`NotifySyncCompleted` followed by
+`NotifySyncStarting(true)` without releasing the lock), `G1.finished` means it returned `false`.
+
+A graceful restart and a *process* crash are `crashRestart` with every index record write kept (the
+operating system has them: `List.replicate _ true`); the unsynced data writes and the choice among
+the state files not yet made durable stay arbitrary.  Assumptions as in C02 (A1-A4); A2 is used
+only through `o.durable`, A4 only through `filesOf`.
+-/
 namespace BB.C03
+open BB.Persist
+
+/-- **Refused, not lost.** From the `NotifySyncStarting(true)` of the final iteration on the list is
+closed for writing: `PushBack` fails, `Put` hands out a writer that only discards, every finalizer
+reports UNAVAILABLE (so no upload is acknowledged and no index record is written), and the flag is
+only reset by a restart. -/
+theorem C03_refused_not_lost {c : Cfg} (hss : 0 < c.ss) {w : World} (hr : Reach c w) (hg : Closing w.g1) :
+    w.pbl.closed = true ∧ w.pushBack = none ∧ (∀ i size key upload, w.reserve i size key upload = .closed) ∧
+    (∀ id, w.finalize id = .unavailable ∨ w.finalize id = .bad) ∧
+    (∀ w', Step w w' → w'.pbl.closed = true ∨ ∃ kd ki pick lo, w' = w.crashRestart kd ki pick lo) := by
+  have hc := (shutInv_reach hss hr).closed hg
+  exact ⟨hc, closed_pushBack hc, closed_reserve hc, closed_finalize hc,
+    fun w' hs => closed_step (inv_reach hss hr) hs hc⟩
+
+/-- The same for the composite the driver executes (block map + hash index over the world): no
+allocation succeeds, and `finalizePut` answers UNAVAILABLE leaving everything as it was. -/
+theorem C03_refused_not_lost_store {fc : FCfg} {c : Cfg} (hss : 0 < c.ss) {f : Full} (hr : FReach fc c f)
+    (hg : Closing f.w.g1) :
+    (∀ size key upload id abs off f', Full.allocate fc f size key upload ≠ .ok id abs off f') ∧
+    (∀ id r f', Full.finalizePut fc f id = some (r, f') → r = "err unavailable" ∧ f' = f) := by
+  have hc := (shutInv_reach hss (freach_world hss hr)).closed hg
+  exact ⟨fun size key upload id abs off f' => allocate_closed hc size key upload id abs off f',
+    fun id r f' hp => finalizePut_closed hc hp⟩
+
+/-- **The restart layout admits the restored blocks.** For both generated growth policies: if the
+restored blocks fit the configured old + current + new counts, `NewOldCurrentNewLocationBlobMap`
+(the two promotion loops, then the release computation) schedules nothing for release, puts every
+restored block in exactly one group and leaves at most `desiredOld` of them "old". -/
+theorem C03_restart_layout_admits {fc : FCfg} (hc : BB.BlockMap.CfgOK fc.bm) (f : Full) (keepData keepIdx : List Bool)
+    (pick : Nat) (lo : Bool)
+    (hfit : (f.w.crashRestart keepData keepIdx pick lo).pbl.blocks.length ≤ BB.BlockMap.capacity fc.bm) :
+    (Full.crashRestart fc f keepData keepIdx pick lo).bm.toBeReleased = 0 ∧
+    (Full.crashRestart fc f keepData keepIdx pick lo).bm.released = 0 ∧
+    (Full.crashRestart fc f keepData keepIdx pick lo).bm.total = (f.w.crashRestart keepData keepIdx pick lo).pbl.blocks.length ∧
+    (Full.crashRestart fc f keepData keepIdx pick lo).bm.old ≤ fc.bm.desiredOld := by
+  have h := BB.BlockMap.init_admits hc
+    ((f.w.crashRestart keepData keepIdx pick lo).pbl.blocks.map fun b => (f.w.crashRestart keepData keepIdx pick lo).cfg.bs - b.cursor)
+    (f.w.crashRestart keepData keepIdx pick lo).free.length (by simpa using hfit)
+  obtain ⟨h1, h2, h3, _, h5⟩ := h
+  simp only [List.length_map] at h2
+  exact ⟨h1, h5, h2, h3⟩
+
+/-- What a restart of a *sealed* world serves: every record that resolved still resolves, to the
+block of the same generation in the same device slot, and is read back as an intact object written
+under the record's key with content a client offered for that key. -/
+theorem sealed_restart_serves {c : Cfg} (hss : 0 < c.ss) {w : World} (hr : Reach c w) (hs : Sealed w)
+    (keepData : List Bool) (pick : Nat) (lo : Bool) {slot i : Nat} {r : PRec}
+    (hcur : w.idx.curGet slot = some r) (hres : w.resolve r = some i) :
+    ∃ w', w' = w.crashRestart keepData (List.replicate w.idx.pend.length true) pick lo ∧ Reach c w' ∧
+      w'.idx.curGet slot = some r ∧
+      ∃ k b b' o, w'.resolve r = some (i + k) ∧ w.pbl.blocks[i]? = some b ∧ w'.pbl.blocks[i + k]? = some b' ∧
+        b'.gid = b.gid ∧ b'.slot = b.slot ∧ w'.readAt b'.slot r.off r.size = some o ∧
+        o.key = r.key ∧ o.off = r.off ∧ o.size = r.size ∧ (r.key, o.data) ∈ w'.shadow := by
+  have hr' : Reach c (w.crashRestart keepData (List.replicate w.idx.pend.length true) pick lo) :=
+    Reach.step hr (Step.crashRestart _ _ _ _)
+  obtain ⟨h1, k, b, b', h2, h3, h4, h5, h6⟩ := restart_of_sealed (inv_reach hss hr) hs keepData pick lo hcur hres
+  obtain ⟨b2, o, g1, g2, _, g3, g4, g5, _, g6, _⟩ := served_of_inv (inv_reach hss hr') h1 h2
+  rw [h4] at g1
+  simp only [Option.some.injEq] at g1
+  subst g1
+  exact ⟨_, rfl, hr', h1, k, b, b', o, h2, h3, h4, h5, h6, g2, g3, g4, g5, g6⟩
+
+/-- **Shutdown covers acknowledgements.** When `ProcessBlockPut` has returned `false` - after any
+history, with the shutdown arriving at any point relative to uploads in flight and to the steps of
+both syncer goroutines - the list is closed for writing, a state file is durable, and *every* state
+file a restart may read (the durable one, or one `ProcessBlockRelease` renamed since) lists, for
+every object whose finalizer succeeded (= whose upload was acknowledged) and whose block was not
+rotated out, that block with the object's epoch and a write offset beyond the object's end; the
+object's sectors are durable (they were written before a data sync that completed was entered). -/
+theorem C03_shutdown_covers_acks {c : Cfg} (hss : 0 < c.ss) {w : World} (hr : Reach c w) (hfin : w.g1 = .finished) :
+    w.pbl.closed = true ∧ w.dir.state.isSome = true ∧
+    ∀ f ∈ filesOf w.dir, ∀ o ∈ w.objs, ∀ (e i : Nat) (b : Blk), o.fin = some e → w.pbl.blocks[i]? = some b → b.gid = o.gid →
+      ∃ (j : Nat) (bs : BState), f.blocks[j]? = some bs ∧ bs.gid = o.gid ∧ e < f.oldest + (fseeds f.blocks).length ∧
+        o.off + o.size ≤ bs.wo ∧ o.durable = true := by
+  have hs := shutInv_reach hss hr
+  have hsl := hs.done hfin
+  refine ⟨hs.closed (Or.inr (Or.inr (Or.inr (Or.inr hfin)))), hsl.state, ?_⟩
+  intro f hf o ho e i b hfe hb hg
+  exact sealed_covers (inv_reach hss hr) hsl hf ho hfe hb hg
+
+/-- ... and the restart serves them: after `ProcessBlockPut` returned `false`, a restart - whatever
+subset of the unsynced data writes the medium kept, whichever of the candidate state files it
+finds - resolves every index record the store resolved before, to the same block, and reads back an
+intact object of the record's key with bytes a client uploaded for that key. -/
+theorem C03_shutdown_restart_serves {c : Cfg} (hss : 0 < c.ss) {w : World} (hr : Reach c w) (hfin : w.g1 = .finished)
+    (keepData : List Bool) (pick : Nat) (lo : Bool) {slot i : Nat} {r : PRec}
+    (hcur : w.idx.curGet slot = some r) (hres : w.resolve r = some i) :
+    ∃ w', w' = w.crashRestart keepData (List.replicate w.idx.pend.length true) pick lo ∧ Reach c w' ∧
+      w'.idx.curGet slot = some r ∧
+      ∃ k b b' o, w'.resolve r = some (i + k) ∧ w.pbl.blocks[i]? = some b ∧ w'.pbl.blocks[i + k]? = some b' ∧
+        b'.gid = b.gid ∧ b'.slot = b.slot ∧ w'.readAt b'.slot r.off r.size = some o ∧
+        o.key = r.key ∧ o.off = r.off ∧ o.size = r.size ∧ (r.key, o.data) ∈ w'.shadow :=
+  sealed_restart_serves hss hr ((shutInv_reach hss hr).done hfin) keepData pick lo hcur hres
+
+/-- **A commit is durable.** Take any reachable world `w0` in which `ProcessBlockPut` is waiting
+(`idle`), let it run one full iteration - `NotifySyncStarting`, data sync, `NotifySyncCompleted`,
+`GetPersistentState`, the state file written, fsynced, renamed, the directory fsynced,
+`NotifyPersistentStateWritten` (`swDone`) - interleaved with *any* other steps (block rotation,
+writers copying, `ProcessBlockRelease` writing state files, failing syncs and directory operations
+with their retries) except a successful finalizer (no upload or refresh is acknowledged) and a
+crash, and continue likewise.  Then a process crash and restart - the medium keeps the index
+records; any subset of unsynced data writes; any candidate state file - resolves every index
+record the store resolved at the moment of the crash to the same block and serves an intact object
+of the record's key with bytes a client uploaded for that key. -/
+theorem C03_commit_durable {c : Cfg} (hss : 0 < c.ss) {w0 wa wb w : World} (hr : Reach c w0) (h0 : w0.g1 = .idle)
+    (hc1 : CalmSteps w0 wa) {s : Sw} (hsw : wa.sw = some s) (hown : s.owner = 1) (hd : wa.swDone = some wb)
+    (hc2 : CalmSteps wb w) (keepData : List Bool) (pick : Nat) (lo : Bool) {slot i : Nat} {r : PRec}
+    (hcur : w.idx.curGet slot = some r) (hres : w.resolve r = some i) :
+    ∃ w', w' = w.crashRestart keepData (List.replicate w.idx.pend.length true) pick lo ∧ Reach c w' ∧
+      w'.idx.curGet slot = some r ∧
+      ∃ k b b' o, w'.resolve r = some (i + k) ∧ w.pbl.blocks[i]? = some b ∧ w'.pbl.blocks[i + k]? = some b' ∧
+        b'.gid = b.gid ∧ b'.slot = b.slot ∧ w'.readAt b'.slot r.off r.size = some o ∧
+        o.key = r.key ∧ o.off = r.off ∧ o.size = r.size ∧ (r.key, o.data) ∈ w'.shadow := by
+  have hsl := commit_sealed hss hr h0 hc1 hsw hown hd hc2
+  have hrw : Reach c w := calm_reach (Reach.step (calm_reach hr hc1) (Step.swDone hd)) hc2
+  exact sealed_restart_serves hss hrw hsl keepData pick lo hcur hres
+
+/-- The state-file half of `C03_commit_durable`: after such a commit every state file a restart may
+read covers every finalized object whose block is still in the list. -/
+theorem C03_commit_covers {c : Cfg} (hss : 0 < c.ss) {w0 wa wb w : World} (hr : Reach c w0) (h0 : w0.g1 = .idle)
+    (hc1 : CalmSteps w0 wa) {s : Sw} (hsw : wa.sw = some s) (hown : s.owner = 1) (hd : wa.swDone = some wb)
+    (hc2 : CalmSteps wb w) :
+    w.dir.state.isSome = true ∧
+    ∀ f ∈ filesOf w.dir, ∀ o ∈ w.objs, ∀ (e i : Nat) (b : Blk), o.fin = some e → w.pbl.blocks[i]? = some b → b.gid = o.gid →
+      ∃ (j : Nat) (bs : BState), f.blocks[j]? = some bs ∧ bs.gid = o.gid ∧ e < f.oldest + (fseeds f.blocks).length ∧
+        o.off + o.size ≤ bs.wo ∧ o.durable = true := by
+  have hsl := commit_sealed hss hr h0 hc1 hsw hown hd hc2
+  have hrw : Reach c w := calm_reach (Reach.step (calm_reach hr hc1) (Step.swDone hd)) hc2
+  refine ⟨hsl.state, ?_⟩
+  intro f hf o ho e i b hfe hb hg
+  exact sealed_covers (inv_reach hss hrw) hsl hf ho hfe hb hg
+
+/-! ## The hypotheses are satisfiable: a concrete history
+
+4-byte sectors, 8-byte blocks, 3 blocks.  One upload (5 bytes, key 7, content token 100) with its
+index record; one full commit (`u5` ... `u17`); then a graceful shutdown: first sync, the lock region
+that learns of the shutdown (`g1Completed true`), second sync, final state write (`v1` ... `v15`). -/
+namespace Example
+
+def c : Cfg := ⟨4, 8, 3⟩
+def u0 : World := World.fresh c
+def u1 : World := (u0.pushBack).getD u0
+def u2 : World := match u1.reserve 0 5 7 true with | .ok _ w => w | _ => u1
+def u3 : World := (u2.copy 0 100).getD u2
+def u4 : World := match u3.finalize 0 with | .ok w => w | _ => u3
+def u5 : World := (u4.recWrite 2 7 0 0 0 5).getD u4
+def u6 : World := (u5.g1Start).getD u5
+def u7 : World := (u6.syncBegin).getD u6
+def u8 : World := (u7.syncEnd).getD u7
+def u9 : World := (u8.g1Completed false).getD u8
+def u10 : World := (u9.swBegin 1).getD u9
+def u11 : World := (u10.swStep).getD u10
+def u12 : World := (u11.swStep).getD u11
+def u13 : World := (u12.swStep).getD u12
+def u14 : World := (u13.swStep).getD u13
+def u15 : World := (u14.swStep).getD u14
+def u16 : World := (u15.swStep).getD u15
+def u17 : World := (u16.swDone).getD u16
+def v1 : World := (u17.g1Start).getD u17
+def v2 : World := (v1.syncBegin).getD v1
+def v3 : World := (v2.syncEnd).getD v2
+def v4 : World := (v3.g1Completed true).getD v3
+def v5 : World := (v4.syncBegin).getD v4
+def v6 : World := (v5.syncEnd).getD v5
+def v7 : World := (v6.g1Completed false).getD v6
+def v8 : World := (v7.swBegin 1).getD v7
+def v9 : World := (v8.swStep).getD v8
+def v10 : World := (v9.swStep).getD v9
+def v11 : World := (v10.swStep).getD v10
+def v12 : World := (v11.swStep).getD v11
+def v13 : World := (v12.swStep).getD v12
+def v14 : World := (v13.swStep).getD v13
+def v15 : World := (v14.swDone).getD v14
+
+def o0 : Obj := ⟨0, 0, 0, 0, 5, 7, 0, true, 0, false, true, none, false, false⟩
+def rec7 : PRec := ⟨1, 0, 7, 0, 0, 5, 1⟩
+
+theorem reach5 : Reach c u5 := by
+  have r1 : Reach c u1 := Reach.step Reach.init (Step.pushBack (w' := u1) (by rfl))
+  have r2 : Reach c u2 := Reach.step r1 (Step.reserve (o := o0) (w' := u2) (i := 0) (size := 5) (key := 7) (upload := true) (by rfl))
+  have r3 : Reach c u3 := Reach.step r2 (Step.copy (o := o0) (id := 0) (data := 100) (w' := u3) (by rfl) rfl (by rfl))
+  have r4 : Reach c u4 := Reach.step r3 (Step.finalize (id := 0) (w' := u4) (by rfl))
+  exact Reach.step r4 (Step.recWrite (w := u4) (w' := u5) (slot := 2) (key := 7) (att := 0) (abs := 0) (off := 0)
+    (size := 5) (o := { o0 with data := 100, copied := true, fin := some 1 })
+    (b := { gid := 0, slot := 0, cursor := 5, written := 5, epochCount := 1 })
+    (by decide) rfl rfl rfl rfl (by decide) (by rfl) rfl (by rfl))
+
+/-- The commit `u5` ... `u16`, `swDone`, `u17`: calm steps only. -/
+theorem calm_commit : CalmSteps u5 u16 := by
+  have s6 : Calm u5 u6 := calm_of_ctl (Step.g1Start (w' := u6) (by rfl)) (by decide) (Or.inl (by decide))
+  have s7 : Calm u6 u7 := calm_of_ctl (Step.syncBegin (w' := u7) (by rfl)) (by decide) (Or.inl (by decide))
+  have s8 : Calm u7 u8 := calm_of_ctl (Step.syncEnd (w' := u8) (by rfl)) (by decide) (Or.inl (by decide))
+  have s9 : Calm u8 u9 := calm_of_ctl (Step.g1Completed (shutdown := false) (w' := u9) (by rfl)) (by decide) (Or.inl (by decide))
+  have s10 : Calm u9 u10 := calm_of_ctl (Step.swBegin (owner := 1) (w' := u10) (by rfl)) (by decide) (Or.inr (by decide))
+  have s11 : Calm u10 u11 := calm_of_ctl (Step.swStep (w' := u11) (by rfl)) (by decide) (Or.inr (by decide))
+  have s12 : Calm u11 u12 := calm_of_ctl (Step.swStep (w' := u12) (by rfl)) (by decide) (Or.inr (by decide))
+  have s13 : Calm u12 u13 := calm_of_ctl (Step.swStep (w' := u13) (by rfl)) (by decide) (Or.inr (by decide))
+  have s14 : Calm u13 u14 := calm_of_ctl (Step.swStep (w' := u14) (by rfl)) (by decide) (Or.inr (by decide))
+  have s15 : Calm u14 u15 := calm_of_ctl (Step.swStep (w' := u15) (by rfl)) (by decide) (Or.inr (by decide))
+  have s16 : Calm u15 u16 := calm_of_ctl (Step.swStep (w' := u16) (by rfl)) (by decide) (Or.inr (by decide))
+  exact ((((((((((CalmSteps.single s6).tail s7).tail s8).tail s9).tail s10).tail s11).tail s12).tail s13).tail s14).tail
+    s15).tail s16
+
+theorem reach17 : Reach c u17 :=
+  Reach.step (calm_reach reach5 calm_commit) (Step.swDone (w' := u17) (by rfl))
+
+/-- `C03_commit_durable` / `C03_commit_covers`: all hypotheses hold for this history, with a record
+that resolves at the moment of the crash. -/
+example : Reach c u5 ∧ u5.g1 = .idle ∧ CalmSteps u5 u16 ∧ u16.sw = some ⟨1, ⟨1, [⟨0, 0, 5, [1]⟩]⟩, 6⟩ ∧
+    u16.swDone = some u17 ∧ CalmSteps u17 u17 ∧ u17.idx.curGet 2 = some rec7 ∧ u17.resolve rec7 = some 0 :=
+  ⟨reach5, rfl, calm_commit, by rfl, by rfl, CalmSteps.refl _, by rfl, by rfl⟩
+
+/-- ... and what the theorem promises, computed: after a process crash that loses every unsynced
+data write, key 7 is served with content 100. -/
+example : ((u17.crashRestart [] [true] 0 false).readAt 0 0 5).map (·.data) = some 100 := by rfl
+
+theorem reachV15 : Reach c v15 := by
+  have r1 : Reach c v1 := Reach.step reach17 (Step.g1Start (w' := v1) (by rfl))
+  have r2 : Reach c v2 := Reach.step r1 (Step.syncBegin (w' := v2) (by rfl))
+  have r3 : Reach c v3 := Reach.step r2 (Step.syncEnd (w' := v3) (by rfl))
+  have r4 : Reach c v4 := Reach.step r3 (Step.g1Completed (shutdown := true) (w' := v4) (by rfl))
+  have r5 : Reach c v5 := Reach.step r4 (Step.syncBegin (w' := v5) (by rfl))
+  have r6 : Reach c v6 := Reach.step r5 (Step.syncEnd (w' := v6) (by rfl))
+  have r7 : Reach c v7 := Reach.step r6 (Step.g1Completed (shutdown := false) (w' := v7) (by rfl))
+  have r8 : Reach c v8 := Reach.step r7 (Step.swBegin (owner := 1) (w' := v8) (by rfl))
+  have r9 : Reach c v9 := Reach.step r8 (Step.swStep (w' := v9) (by rfl))
+  have r10 : Reach c v10 := Reach.step r9 (Step.swStep (w' := v10) (by rfl))
+  have r11 : Reach c v11 := Reach.step r10 (Step.swStep (w' := v11) (by rfl))
+  have r12 : Reach c v12 := Reach.step r11 (Step.swStep (w' := v12) (by rfl))
+  have r13 : Reach c v13 := Reach.step r12 (Step.swStep (w' := v13) (by rfl))
+  have r14 : Reach c v14 := Reach.step r13 (Step.swStep (w' := v14) (by rfl))
+  exact Reach.step r14 (Step.swDone (w' := v15) (by rfl))
+
+/-- `C03_shutdown_covers_acks`, `C03_shutdown_restart_serves`: `ProcessBlockPut` has returned, a
+finalized object sits in a block of the list, its record resolves. -/
+example : Reach c v15 ∧ v15.g1 = .finished ∧ v15.idx.curGet 2 = some rec7 ∧ v15.resolve rec7 = some 0 ∧
+    ∃ o ∈ v15.objs, o.fin = some 1 ∧ ∃ b, v15.pbl.blocks[0]? = some b ∧ b.gid = o.gid :=
+  ⟨reachV15, by rfl, by rfl, by rfl, _, List.mem_cons_self, rfl, _, rfl, rfl⟩
+
+/-- `C03_refused_not_lost`: from the second `NotifySyncStarting` on (`v4`) the premise holds. -/
+example : Reach c v4 ∧ Closing v4.g1 := by
+  have r1 : Reach c v1 := Reach.step reach17 (Step.g1Start (w' := v1) (by rfl))
+  have r2 : Reach c v2 := Reach.step r1 (Step.syncBegin (w' := v2) (by rfl))
+  have r3 : Reach c v3 := Reach.step r2 (Step.syncEnd (w' := v3) (by rfl))
+  exact ⟨Reach.step r3 (Step.g1Completed (shutdown := true) (w' := v4) (by rfl)), Or.inl (by rfl)⟩
+
+/-- `C03_restart_layout_admits`: an immutable-policy configuration (1 old, 1 current, 1 new) whose
+layout admits the one restored block. -/
+example : BB.BlockMap.CfgOK ⟨.immutable ⟨2⟩, 8, 1, 1⟩ ∧
+    (v15.crashRestart [] [true] 0 false).pbl.blocks.length ≤ BB.BlockMap.capacity ⟨.immutable ⟨2⟩, 8, 1, 1⟩ :=
+  ⟨⟨by decide, 1, by decide⟩, by decide⟩
+
+end Example
+
 end BB.C03
